@@ -39,7 +39,7 @@ EXPLANATION = (
     "NOT decided: rounding error of prefix sums, numerics of np.cov/slogdet/inv, that np.cumsum is a cumulative sum (library model)."
 )
 # obligations added during the build phase (seeding rounds, twins, mutation analysis)
-ADDED_IN_BUILD = ' Also: np.linalg.det is modelled (sign = determinant sign, log(det) = log|det| where positive) so that a log(det) spelling is compared with the definition instead of leaving the analysed subset.'
+ADDED_IN_BUILD = ' Also: np.linalg.det is modelled (sign = determinant sign, log(det) = log|det| where positive) so that a log(det) spelling is compared with the definition instead of leaving the analysed subset. Fixed parameters are analysed in every combination of scalar and per-column components and also as integer-typed values (numpy\'s integer reciprocal / integer power are not 1/x).'
 EXPLANATION = EXPLANATION + ADDED_IN_BUILD
 
 ASSUMPTIONS = [
@@ -73,7 +73,7 @@ def check(ctx):
         if tab is None:
             ctx.undecided("C01 TABLE", f"{cls.qualname}", cls.module.relpath, "cost class in the COSTS registry without a line in the frozen parameter table (unspecified instance)")
             continue
-        for mode in ("optim", "fixed-array", "fixed-number") + _mixed_modes(tab):
+        for mode in ("optim", "fixed-array", "fixed-number") + _mixed_modes(tab) + ("fixed-array:int", "fixed-number:int"):
             key = f"{cls.name}|{mode}"
             ctx.guard("C01.a NF-KERNEL", key, lambda: check_kernel(ctx, cls, tab, mode, n_sinks), cls.module.relpath)
             n_kernels += 1
@@ -167,7 +167,13 @@ def _mixed_modes(tab):
 
 
 def _is_number(mode, c):
-    return mode == "fixed-number" or mode == f"fixed-mix:{c}"
+    return mode.startswith("fixed-number") or mode == f"fixed-mix:{c}"
+
+
+def _param_dtype(mode):
+    """a fixed parameter given as Python ints / an integer array (`param=(0, 2)`) is as valid as its float spelling; the
+    validators keep the dtype they are given, so the kernels see it"""
+    return "int" if mode.endswith(":int") else "float"
 
 
 def make_param(ex, tab, mode, qlen=None, only=None):
@@ -177,7 +183,7 @@ def make_param(ex, tab, mode, qlen=None, only=None):
     comps = []
     for c in tab["components"]:
         if _is_number(mode, c):
-            v = Num(sym(c), (), "float", "number", meta={"role": c})
+            v = Num(sym(c), (), _param_dtype(mode), "number", meta={"role": c})
             ex.atom_shapes[Atom("sym", c).key] = ()
         else:
             ql = qlen if (only is None or only == c) else None
@@ -185,7 +191,7 @@ def make_param(ex, tab, mode, qlen=None, only=None):
                 shape = (Pdim, Pdim) if ql is None else (ql, ql)
             else:
                 shape = (Pdim,) if ql is None else (ql,)
-            v = Num(sym(c), shape, "float", "ndarray", meta={"role": c, "foreign": True})
+            v = Num(sym(c), shape, _param_dtype(mode), "ndarray", meta={"role": c, "foreign": True})
             ex.atom_shapes[Atom("sym", c).key] = shape
         comps.append(v)
     return [comps[0]] if len(comps) == 1 else [TupleV(comps)]
@@ -253,7 +259,12 @@ def check_kernel(ctx, cls, tab, mode, sinks):
         v = p.value
         kloc = loc
         if not isinstance(v, Num):
-            ctx.violation("C01.a NF-KERNEL", key, loc, "evaluate does not return an array", found=repr(v))
+            from ..values import OpaqueV
+
+            if isinstance(v, OpaqueV):
+                ctx.undecided("C01.a NF-KERNEL", key, loc, "the returned value is the result of a call without a model: not decided", found=repr(v)[:120])
+            else:
+                ctx.violation("C01.a NF-KERNEL", key, loc, "evaluate does not return an array", found=repr(v))
             continue
         # ------------------------------------------------ value
         if multivariate:
